@@ -136,7 +136,7 @@ def parseDoc (id : String) (toks : List String) : Doc :=
           | _ => d
         | _ => d
       else d
-    | _ => d) { id := id, terms := [], nums := [], geos := [] }
+    | _ => d) { id := id, terms := [("_id", [id])], nums := [], geos := [] }   -- the `_id` field holds the id as its only term
 
 /-! ### queries -/
 def hexToString (s : String) : String :=
